@@ -385,6 +385,7 @@ def execute(case: dict):
     old_cwd = os.getcwd()
     doomed = os.path.join(root, "doomed")
     orig_read_text = pathlib.Path.read_text
+    orig_read_bytes = pathlib.Path.read_bytes
     fault = case.get("fault")
     chain = case["chain"]
     facts = {"fault": fault["kind"] if fault else None, "entry_form": case["entry_form"], "hops": len(chain) - 1,
@@ -392,7 +393,7 @@ def execute(case: dict):
     try:
         materialise(case, root)
 
-        def patched_read_text(self, *a, **kw):
+        def maybe_fail(self):
             if fault and fault["kind"] == "read_error":
                 target = os.path.join(root, chain[fault["hop"] + 1])
                 try:
@@ -403,9 +404,18 @@ def execute(case: dict):
                     stats["fault_fired:read_error"] = stats.get("fault_fired:read_error", 0) + 1
                     code = getattr(errno, fault["errno"])
                     raise OSError(code, os.strerror(code), str(self))
+
+        # the seam is "reading a file through pathlib", whichever of the two calls the library uses
+        def patched_read_text(self, *a, **kw):
+            maybe_fail(self)
             return orig_read_text(self, *a, **kw)
 
+        def patched_read_bytes(self, *a, **kw):
+            maybe_fail(self)
+            return orig_read_bytes(self, *a, **kw)
+
         pathlib.Path.read_text = patched_read_text
+        pathlib.Path.read_bytes = patched_read_bytes
 
         def run_events(call_index: int) -> None:
             for e in case["events"]:
@@ -470,6 +480,7 @@ def execute(case: dict):
                     viols.append(Violation("C17.wrong_error", "hop %d is %s: raised %s (%s), expected %s" % (fault["hop"], kind, outcome.__name__, msg, want_cls.__name__), None, facts))
     finally:
         pathlib.Path.read_text = orig_read_text
+        pathlib.Path.read_bytes = orig_read_bytes
         try:
             os.chdir(old_cwd)
         except OSError:
@@ -483,7 +494,7 @@ class FsProperty:
     rule = ("one evaluation = one directory layout (2-6 files, 1-5 directories, same basenames with different planted values) x import chain (1-4 hops) x entry spelling x "
             "cwd events between calls x optional fault; distinct = distinct (layout, chain, events, start cwd, spelling, fault)")
     real = ["nix_manipulator parse_file / Import / NixPath (real)", "kernel file system on tmpfs, os.chdir, rmdir of the cwd (real)"]
-    stubbed = ["I/O errors: pathlib.Path.read_text patched to raise EACCES/EIO for one chosen file"]
+    stubbed = ["I/O errors: pathlib.Path.read_text / read_bytes patched to raise EACCES/EIO for one chosen file"]
 
     def __init__(self, quick_runs=20000, thorough_runs=300000):
         self.pid = "C17"
